@@ -253,7 +253,8 @@ JournalOf(id) ==
   LET d == layers[Bottom(Mem, id)]
       ds == ChainSeq(id)
       ds2 == IF Bug = "journal-misses-top" /\ Len(ds) > 0 THEN SubSeq(ds, 1, Len(ds) - 1) ELSE ds IN
-  [disk |-> [root |-> d.root, sid |-> d.sid, nodes |-> buf],
+  [for |-> layers[id].root,      \* ghost: the root the journal was asked for
+   disk |-> [root |-> d.root, sid |-> d.sid, nodes |-> buf],
    diffs |-> [i \in 1..Len(ds2) |-> [root |-> layers[ds2[i]].root, nodes |-> layers[ds2[i]].nodes]]]
 
 \* Database.Journal(root); a stale bottom is an error and nothing is written
@@ -360,6 +361,8 @@ StaleIsError ==
 DiskIsOneState == dnodes = NodeTable(dcontent)
 FlushNeverRefused == ~failed
 OpensAfterRestart == act.name \in {"Reopen", "CommitCrash", "Shutdown"} => (LiveRoots # {} /\ (~act.journal => RootOfC(dcontent) \in LiveRoots))
+\* Journal(root); Close; New serves root (and a journal that is loaded serves the root it was written for)
+RestartServesJournaled == (act.name \in {"Shutdown", "Reopen"} /\ act.journal) => journal.for \in LiveRoots
 \* what Commit(root) promises: the state of root is on disk, and only it is left
 CommitDurable == (act.name = "Cap" /\ act.k = 0 /\ act.diff /\ ~failed) => (dcontent = act.root.c /\ DOMAIN lmap = {act.root} /\ buf = NoFn)
 \* P4: flatten keeps the branch it was asked to keep
@@ -371,6 +374,6 @@ NeverTainted == ~tainted
 \* vacuity witnesses (expected violations)
 WitnessSemiStale == \A r \in DOMAIN lmap : Live(lmap[r])
 WitnessForkDropped == ~(act.name = "Cap" /\ act.k > 0 /\ Cardinality(DOMAIN lmap) >= 2 /\ \E r \in DOMAIN lmap : ~Live(lmap[r]))
-WitnessBufferedJournal == ~(act.name = "Reopen" /\ act.journal /\ buf # NoFn /\ Cardinality(DOMAIN lmap) >= 2)
+WitnessBufferedJournal == ~(act.name \in {"Reopen", "Shutdown"} /\ act.journal /\ buf # NoFn /\ Cardinality(DOMAIN lmap) >= 2)
 WitnessRootReplaced == ~(\E i \in DOMAIN layers : layers[i].kind = "diff" /\ layers[i].root = layers[layers[i].parent].root)
 =============================================================================
